@@ -166,7 +166,7 @@ Section StitchReads.
     emits_only P (open_band keep skip n last acc merr k).
   Proof.
     intros Hk. unfold open_band. repeat eo_step; auto.
-    apply list_subdirs_eo; [apply Hk|]. intros hs. apply hunks_loop_eo. exact Hk.
+    apply list_subdirs_eo; [apply Hk|]. intros hs. repeat eo_step; auto. apply hunks_loop_eo. exact Hk.
   Qed.
 
   Lemma after_band_eo n below last acc merr :
@@ -1253,7 +1253,7 @@ Module SafeExamples.
   Example ex_a2_contents :
     map fst (files ex_a2)
     = [PHeader; PHead 0; PBlock [1;2]; PHunk 0 0; PBlock [1;2;3;4]; PBlock [5;6]; PHunk 0 1; PTail 0]
-    /\ length (trace (backup 7) ex_a2 []) = 23%nat.
+    /\ length (trace (backup 7) ex_a2 []) = 24%nat.
   Proof. vm_compute. split; reflexivity. Qed.
 
   (* Old, checked by computation on pairs of states *)
@@ -1264,17 +1264,17 @@ Module SafeExamples.
 
   (* a crash in the middle of the second backup (the 16th operation, the write of the first
      index hunk, killed leaving a zero-length file), and an I/O error on a block write *)
-  Definition ex_phi_crash := repeat NoFault 16 ++ [CrashEmpty].
-  Definition ex_phi_fail := repeat NoFault 19 ++ [Fail EOther].
+  Definition ex_phi_crash := repeat NoFault 17 ++ [CrashEmpty].
+  Definition ex_phi_fail := repeat NoFault 20 ++ [Fail EOther].
   Example ex_crash_state :
-    length (run_states ex_pre (backup 7) ex_a2 ex_phi_crash) = 17%nat
+    length (run_states ex_pre (backup 7) ex_a2 ex_phi_crash) = 18%nat
     /\ get (final (backup 7) ex_a2 ex_phi_crash) (PHunk 1 0) = Some Empty
     /\ snd (run ex_pre (backup 7) ex_a2 ex_phi_crash) = Crashed.
   Proof. vm_compute. repeat split; reflexivity. Qed.
   Example ex_old_crash : Old ex_a2 (final (backup 7) ex_a2 ex_phi_crash).
   Proof. old_by_computation. Qed.
   Example ex_old_fail : Old ex_a2 (final (backup 7) ex_a2 ex_phi_fail)
-    /\ nth_error (trace (backup 7) ex_a2 ex_phi_fail) 19
+    /\ nth_error (trace (backup 7) ex_a2 ex_phi_fail) 20
        = Some (OpWrite (PBlock [5;7]) (PlBlock [5;7]) CreateNew, RErr EOther).
   Proof. split; [old_by_computation | vm_compute; reflexivity]. Qed.
   (* the same facts as instances of the theorem *)
@@ -1308,8 +1308,8 @@ Module SafeExamples.
   Definition ex_c1 := final (backup 6) ex_a1 (repeat NoFault 10 ++ [CrashEmpty]).
   Example ex_leftover_completed :
     get ex_c1 (PBlock [1;2]) = Some Empty
-    /\ nth_error (trace (backup 6) ex_c1 []) 14 = Some (OpWrite (PBlock [1;2]) (PlBlock [1;2]) CreateNew, ROk)
-    /\ (exists ab, state_before ex_pre (backup 6) ex_c1 [] 14 = Some ab /\ get ab (PBlock [1;2]) = Some Empty)
+    /\ nth_error (trace (backup 6) ex_c1 []) 15 = Some (OpWrite (PBlock [1;2]) (PlBlock [1;2]) CreateNew, ROk)
+    /\ (exists ab, state_before ex_pre (backup 6) ex_c1 [] 15 = Some ab /\ get ab (PBlock [1;2]) = Some Empty)
     /\ nth_error (trace (backup 6) ex_c1 []) 6 = Some (OpWrite (PHead 1) (PlHead HvOk) CreateNew, ROk)
     /\ (exists ab, state_before ex_pre (backup 6) ex_c1 [] 6 = Some ab /\ get ab (PHead 1) = None).
   Proof.
@@ -1340,10 +1340,10 @@ Module SafeExamples.
 
   (* reading operations do read *)
   Example ex_list_reads :
-    length (trace (list_prog Latest keep_all) ex_a3 []) = 9%nat
+    length (trace (list_prog Latest keep_all) ex_a3 []) = 10%nat
     /\ final (list_prog Latest keep_all) ex_a3 [] = ex_a3
-    /\ length (trace (restore_prog Latest keep_all) ex_a3 []) = 15%nat
-    /\ length (trace (validate_prog false []) ex_a3 []) = 28%nat.
+    /\ length (trace (restore_prog Latest keep_all) ex_a3 []) = 16%nat
+    /\ length (trace (validate_prog false []) ex_a3 []) = 30%nat.
   Proof. vm_compute. repeat split; reflexivity. Qed.
 End SafeExamples.
 
